@@ -23,6 +23,7 @@ def handle (line : String) : String :=
   | "amqp" :: rest => Asl.Drv.Amqp.handle rest
   | "lint" :: rest => Asl.Drv.Lint.handle rest
   | "join" :: rest => Asl.Drv.Join.handle rest
+  | "tasks" :: rest => Asl.Drv.Tasks.handle rest
   | "echo" :: [j] => match rd j with
     | some v => "ok\t" ++ js v
     | none => "unsupported"
